@@ -151,7 +151,7 @@ func (s *ScanMethod) ProcessPacketData(data []byte, _ *gopacket.CaptureInfo) (er
 	if err = s.parser.DecodeLayers(data, &s.rcvDecoded); err != nil {
 		return
 	}
-	if !validPacket(s.rcvDecoded) {
+	if !validPacket(s.rcvDecoded) || s.rcvIP.Version != 4 {
 		return
 	}
 
